@@ -362,7 +362,7 @@ Definition import_default (d : option bytes) : cres (option value) :=
   | Some s => match parse_text s with
               | POk v _ => COk (Some v)
               | PErr => CErr
-              | PFuel => CPanic    (* never: see ProofsValue.parse_text_fuel *)
+              | PFuel => CPanic    (* never: see ProofsFuel.parse_text_fuel *)
               end
   end.
 
